@@ -169,6 +169,26 @@ Print Assumptions C08_utf8_initial.
 Theorem C08_utf8_register : forall cs, line_valid cs -> valid (flat cs).
 Proof. exact flat_valid. Qed.
 Print Assumptions C08_utf8_register.
+(* ---------- C08_refines (PARTIAL) ---------- *)
+(* x, X and D (with any count and plain register) against the declarative one-line reference of ViDefs.v
+   (ref_span / ref_line_delete: x removes [o, min (o+n) len), X removes [max (o-n) 0, o), D removes [o, len) of
+   the body of the cursor line): the interpreter's buffer, register, cursor row and cursor offset are the
+   reference's, for every well-formed buffer and valid cursor.
+   MISSING (hence _partial): the remaining commands of the design list -- C s S Y J r ~ g~ gu gU < >, p P and the
+   inserts -- are only mirrored (and tied to the independent reference Ref8 and to the code by the
+   correspondence run), not related to a smaller reference; the sticky column / window top are not part of
+   the statement *)
+Theorem C08_refines_partial_x_X_D : forall rows e k y cnt e1 body, plain_reg y ->
+  let b := s_buf e in let s := s_vs e in
+  buf_wf b -> cursor_ok b (v_row s) (v_off s) -> getl b (v_row s) = Some (body ++ [nlc]) -> 0 <= cnt ->
+  exec1 rows (lcmd k y cnt) e = Some e1 ->
+  let '(a, z) := ref_span k (Z.max 1 cnt) (v_off s) (Z.of_nat (length body)) in
+  let '(nb, del) := ref_line_delete body a z in
+  s_buf e1 = set_row b (v_row s) [nb ++ [nlc]] 1 /\
+  reg_get (s_regs e1) y = Some (flat del, false) /\
+  v_row (s_vs e1) = v_row s /\ v_off (s_vs e1) = ren_noeol (Some (nb ++ [nlc])) a.
+Proof. exact refines_line_deletes. Qed.
+Print Assumptions C08_refines_partial_x_X_D.
 Local Open Scope N_scope.
 
 Example C08_nonvacuous :
